@@ -63,3 +63,27 @@ def environment():
 def reset_environment():
     global _env
     _env = None
+
+
+def prune_parser_cache():
+    """Drop parso's in-memory cache entries for files under the run's scratch directory.
+
+    Workers analyse thousands of generated files under fresh paths.  parso garbage-collects its
+    in-memory cache once it holds >= 600 entries, judging age by `last_used`, which a freshly
+    parsed module inherits from the *file's mtime*: typeshed stubs parsed a moment ago are then
+    evicted while the running query still uses them, and jedi raises KeyError in
+    parser_utils.get_parso_cache_node (seen after ~600 files per worker; recorded in DESIGN §7
+    as a genuine long-lived-process defect of the parso/jedi cache contract).  Each generated
+    program is an independent session, so its entries are simply dropped when it is done;
+    the cache then never reaches the trigger and every check stays deterministic.
+    """
+    try:
+        from parso.cache import parser_cache
+    except Exception:
+        return
+    root = os.environ.get('JV_SCRATCH')
+    if not root:
+        return
+    for m in parser_cache.values():
+        for p in [p for p in m if p is not None and str(p).startswith(root)]:
+            del m[p]
